@@ -15,15 +15,18 @@
                          invisible" clause for the modelled compiler; its side conditions (which lines,
                          which texts, no trailing blank of the line's own) are exact: each has a
                          counterexample below.
-     # comment lines     hash_line_invisible_top_level: inserting a # line in front of a line where the
-                         pre-pass and the main loop are at top level leaves `parse` unchanged (up to
-                         the line index inside a diagnostic), for all extractors that are local in the
-                         sense of xs_local; hash_line_invisible_blockfree: unconditionally for inputs in
-                         which every line is classified by the main loop itself (no block construct).
+     # comment lines     hash_line_invisible_top_level_partial: inserting a # line in front of a line
+                         where the pre-pass and the main loop are at top level leaves `parse`
+                         unchanged (up to the line index inside a diagnostic), for all extractors that
+                         are local in the sense of xs_local; hash_line_invisible_blockfree:
+                         unconditionally for inputs in which every line is classified by the main loop
+                         itself (no block construct).
                          NOT covered: # lines inside a block that an extractor consumes (@if/@for/@py
                          bodies, join blocks), inside the @metadata block, after the last line; and
-                         xs_local is not proved of the real extractors (it is a statement about them
-                         reading only their own block).
+                         xs_local is not proved of the real extractors in general (it says that they
+                         read only their own block; it is checked by evaluation for a concrete story
+                         with every block construct, small_story_local, and it fails in one corner,
+                         join_block_absorbs_indented_comment).
      legacy = @          for_block_forms_agree_partial: a loop block opened with `@for v in c:` or with
                          `<<for v in c>>` is extracted to the same token, whatever surrounds it (whole
                          block, extractor level); if/elif/else/endif_forms_agree_partial: both forms of
@@ -36,7 +39,7 @@
    DIFFERENTIAL ONLY (harness/c17.py, every run): parse (print style s) for every style and two-part
    style combination of generated stories against the real BardCompiler; the tie of the models to
    /repo. *)
-From Coq Require Import String Ascii List Bool Arith.
+From Coq Require Import String Ascii List Bool Arith Lia.
 From Bardic Require Import PyStr Value Compiled Lex LexProofs.
 From Bardic Require Import ParseBase ParseLine ParseMain ParseCheck ParseProofs SurfaceProofs.
 From Bardic Require ParseBlocks ParseBlocksInst ParseAllProofs.
@@ -269,7 +272,7 @@ Theorem trailing_comments_prepass_rstrips : forall ls dec,
   within dec (story_mask ls None false 0) = true ->
   strip_comments_outside_python (decorate dec ls) None false 0 =
   rstrip_at dec (strip_comments_outside_python ls None false 0).
-Proof. intros ls dec. exact (prepass_decorate_gen ls dec None false 0). Qed.
+Proof. exact prepass_decorate_rstrips. Qed.
 Print Assumptions trailing_comments_prepass_rstrips.
 
 (* ... hence identical when the decorated lines have no trailing blank of their own. *)
@@ -409,6 +412,8 @@ Proof. vm_compute. split; reflexivity. Qed.
                           is extracted unchanged from the input with c inserted, a block that starts
                           at or after line k is extracted from the shifted input as from the original
                           (asked only at lines where the main loop calls an extractor)
+     seen_comment ls k c  the inserted line as the main loop sees it (bare_of c in the story, c in the
+                          preamble)
      erase                a diagnostic without the line index it carries (the inserted line shifts the
                           indices after it); erase (POk s) = POk s *)
 
@@ -418,16 +423,16 @@ Theorem hash_line_through_prepass : forall k ls ins c,
   prepass_at ls None false 0 k = Some (None, ins, 0) -> k < List.length ls -> is_hash c = true ->
   strip_comments_outside_python (insert_at k c ls) None false 0 =
   insert_at k (if ins then bare_of c else c) (strip_comments_outside_python ls None false 0).
-Proof. intros k ls ins c. exact (prepass_insert_gen k ls None false 0 ins c). Qed.
+Proof. exact prepass_insert. Qed.
 Print Assumptions hash_line_through_prepass.
 
-Theorem hash_line_invisible_top_level : forall pp is_call xs ls k c,
+Theorem hash_line_invisible_top_level_partial : forall pp is_call xs ls k c,
   extractors_ok xs ->
   k < List.length ls -> is_hash c = true -> top_level_at pp xs ls k = true ->
-  (forall c', is_hash c' = true -> xs_local xs (strip_comments_outside_python ls None false 0) k c') ->
+  xs_local xs (strip_comments_outside_python ls None false 0) k (seen_comment ls k c) ->
   erase (parse pp is_call xs (insert_at k c ls)) = erase (parse pp is_call xs ls).
 Proof. exact hash_line_invisible_lemma. Qed.
-Print Assumptions hash_line_invisible_top_level.
+Print Assumptions hash_line_invisible_top_level_partial.
 
 (* inputs in which every line is classified by the main loop itself: no condition on the extractors
    beyond extractors_ok (which real_extractors and no_extractors satisfy) *)
@@ -440,16 +445,13 @@ Proof. exact hash_line_invisible_blockfree_lemma. Qed.
 Print Assumptions hash_line_invisible_blockfree.
 
 (* a story that compiles compiles to the very same story *)
-Theorem hash_line_same_story : forall pp is_call xs ls k c s,
+Theorem hash_line_same_story_blockfree : forall pp is_call xs ls k c s,
   extractors_ok xs ->
   blockfree (strip_comments_outside_python ls None false 0) = true ->
   k < List.length ls -> is_hash c = true -> top_level_at pp xs ls k = true ->
   parse pp is_call xs ls = POk s -> parse pp is_call xs (insert_at k c ls) = POk s.
-Proof.
-  intros pp is_call xs ls k c s Hx Hb Hk Hc Ht Hs.
-  exact (erase_ok_eq _ _ _ s (hash_line_invisible_blockfree_lemma pp is_call xs ls k c Hx Hb Hk Hc Ht) Hs).
-Qed.
-Print Assumptions hash_line_same_story.
+Proof. exact hash_line_same_story_blockfree_lemma. Qed.
+Print Assumptions hash_line_same_story_blockfree.
 
 (* non-vacuity: a block-free story with imports, two passages, a multi-line ~ statement, choices, a
    jump, @hook, @render, @input, glue *)
@@ -515,6 +517,89 @@ Example sample_story_hash_lines :
     end) [2; 3; 28; 31] = true.
 Proof. vm_compute. split; reflexivity. Qed.
 
+(* non-vacuity of the general theorem with blocks and the REAL extractors: for a concrete input and a
+   concrete position xs_local is a finite statement (one instance per line at which the main loop
+   calls an extractor), checked by evaluating the extractors on both inputs *)
+Definition small_story : list string :=
+  [":: Start"; "@py:"; "  z = 9 // 2"; "@endpy"; "@if hp > 1:"; "  You live."; "@else:";
+   "  + [Again] -> Start"; "@endif"; "@for i in items:"; "  {i}<>"; "@endfor";
+   "* [Rest] -> @join"; "    You rest."; "@join"; "+ [Go] -> End"; ":: End"; "Bye."].
+
+Ltac vm_hyp H :=
+  match type of H with
+  | ?l = ?r => let v := eval vm_compute in l in
+               let E := fresh "E" in
+               assert (E : l = v) by (vm_compute; reflexivity); rewrite E in H; clear E
+  end.
+Ltac before_case :=
+  match goal with
+  | Hn : nth_error _ _ = Some _, Ht : _ = true, Hx : _ = POk _ |- _ =>
+      simpl in Hn; injection Hn as <-; vm_hyp Ht; try discriminate Ht;
+      vm_hyp Hx; try discriminate Hx; inversion Hx; subst; try lia; vm_compute; reflexivity
+  end.
+Ltac after_case :=
+  match goal with
+  | Hn : nth_error _ _ = Some _, Ht : _ = true |- _ =>
+      simpl in Hn; try discriminate Hn; injection Hn as <-; vm_hyp Ht; try discriminate Ht;
+      try lia; vm_compute; reflexivity
+  end.
+
+Example small_story_local :
+  xs_local ParseAllProofs.real_extractors (strip_comments_outside_python small_story None false 0) 9
+           (seen_comment small_story 9 "  # the loop // c").
+Proof.
+  replace (strip_comments_outside_python small_story None false 0) with small_story by (vm_compute; reflexivity).
+  replace (seen_comment small_story 9 "  # the loop // c") with "  # the loop" by (vm_compute; reflexivity).
+  unfold small_story, xs_local. cbv zeta.
+  repeat split.
+  - intros i line Hi Hn Ht t n Hx Hle. do 9 (destruct i as [|i]; [before_case|]). lia.
+  - intros i line Hi Hn Ht t n Hx Hle. do 9 (destruct i as [|i]; [before_case|]). lia.
+  - intros i line Hi Hn Ht t n Hx Hle. do 9 (destruct i as [|i]; [before_case|]). lia.
+  - intros i line Hi Hn Ht t n Hx Hle. do 9 (destruct i as [|i]; [before_case|]). lia.
+  - intros i line Hi Hn Ht. do 18 (destruct i as [|i]; [try lia; after_case|]). simpl in Hn; destruct i; discriminate Hn.
+  - intros i line Hi Hn Ht. do 18 (destruct i as [|i]; [try lia; after_case|]). simpl in Hn; destruct i; discriminate Hn.
+  - intros i line Hi Hn Ht. do 18 (destruct i as [|i]; [try lia; after_case|]). simpl in Hn; destruct i; discriminate Hn.
+  - intros i line Hi Hn Ht. do 18 (destruct i as [|i]; [try lia; after_case|]). simpl in Hn; destruct i; discriminate Hn.
+Qed.
+
+Example small_story_by_theorem : forall is_call,
+  erase (parse pp0 is_call ParseAllProofs.real_extractors (insert_at 9 "  # the loop // c" small_story)) =
+  erase (parse pp0 is_call ParseAllProofs.real_extractors small_story).
+Proof.
+  intros is_call. apply hash_line_invisible_top_level_partial.
+  - exact ParseAllProofs.real_extractors_ok.
+  - simpl. lia.
+  - reflexivity.
+  - vm_compute. reflexivity.
+  - exact small_story_local.
+Qed.
+
+Example small_story_compiles :
+  match ParseAllProofs.parse_real pp0 (fun _ => true) (insert_at 9 "  # the loop // c" small_story),
+        ParseAllProofs.parse_real pp0 (fun _ => true) small_story with
+  | POk a, POk b => story_eqb a b = true /\ List.length (passages a) = 2
+  | _, _ => False
+  end.
+Proof. vm_compute. split; reflexivity. Qed.
+
+(* why xs_local is a hypothesis and not a lemma about the real extractors: it is finite-checkable for a
+   given input (above), it is not true of them in one corner: the join-block extractor reads one line
+   beyond its block to see where it ends, and a comment indented more than the choice, inserted right
+   after the block, is taken into the block (one more line consumed, same tokens).  The compiled story
+   is still the same, by a different run of the main loop. *)
+Example join_block_absorbs_indented_comment :
+  let js := [":: S"; "* [R] -> @join"; "    You rest."; "@join"; "after"] in
+  top_level_at pp0 ParseAllProofs.real_extractors js 3 = true /\
+  x_join ParseAllProofs.real_extractors js 2 0 = POk ([TText "You rest."; TText ParseMain.nl], [], 1) /\
+  x_join ParseAllProofs.real_extractors (insert_at 3 "      # note" js) 2 0 =
+    POk ([TText "You rest."; TText ParseMain.nl], [], 2) /\
+  match ParseAllProofs.parse_real pp0 (fun _ => true) (insert_at 3 "      # note" js),
+        ParseAllProofs.parse_real pp0 (fun _ => true) js with
+  | POk a, POk b => story_eqb a b = true
+  | _, _ => False
+  end.
+Proof. vm_compute. repeat split; reflexivity. Qed.
+
 (* ------------------------------------------------------------------------------------------- *)
 (* (c) legacy `<<...>>` and `@...:` headers                                                      *)
 (* ------------------------------------------------------------------------------------------- *)
@@ -535,7 +620,7 @@ Print Assumptions for_block_forms_agree_partial.
 Theorem for_header_forms_read_back_partial : forall v coll, var_ok v = true -> cond_ok coll = true ->
   ParseBlocks.match_for_colon ("@for " ++ v ++ " in " ++ coll ++ ":") = Some (v, coll) /\
   ParseBlocks.match_for_legacy ("<<for " ++ v ++ " in " ++ coll ++ ">>") = Some (v, coll).
-Proof. intros v coll Hv Hc. split; [apply match_for_colon_forms|apply match_for_legacy_forms]; assumption. Qed.
+Proof. exact for_header_forms_read_back. Qed.
 Print Assumptions for_header_forms_read_back_partial.
 
 (* header level: the opening line of a conditional block, in either form and at any indentation, puts
